@@ -1,29 +1,2 @@
-/- GENERATED by tools/gen_lean.py from /repo — do not edit. -/
-namespace SCoda.Gen
-
-/-- names of `MessageType` in enum order (the order `__lt__` compares by) -/
-def messageTypeOrder : List String := ["INTERNAL", "SEQUENCE_CONTROL", "KEY_SIGNATURE", "TIME_SIGNATURE", "CONTROL_CHANGE", "PROGRAM_CHANGE", "NOTE_OFF", "NOTE_ON", "WAIT"]
-def messageTypeValues : List String := ["internal", "sequence_control", "key_signature", "time_signature", "control_change", "program_change", "note_off", "note_on", "wait"]
-
-/-- `Note` enum: (name, value) in source order -/
-def noteEnum : List (String × Int) := [("C", 0), ("C_S", 1), ("D", 2), ("D_S", 3), ("E", 4), ("F", 5), ("F_S", 6), ("G", 7), ("G_S", 8), ("A", 9), ("A_S", 10), ("B", 11)]
-/-- `Key` enum names / values in source order; a key is its index in this list -/
-def keyNames : List String := ["C", "G", "D", "A", "E", "B", "F_S", "C_S", "F", "B_B", "E_B", "A_B", "D_B", "G_B", "C_B"]
-def keyValues : List String := ["C", "G", "D", "A", "E", "B", "F#", "C#", "F", "Bb", "Eb", "Ab", "Db", "Gb", "Cb"]
-
-/-- `CircleOfFifths.circle_of_fifths_order` as note values -/
-def circleOfFifthsOrder : List Int := [1, 8, 3, 10, 5, 0, 7, 2, 9, 4, 11, 6]
-
-/-- `MusicMapping.KeyNoteMapping` in dict order: (key index, scale as note values, accidentals) -/
-def keyNoteMapping : List (Int × List Int × Int) := [(0, [0, 2, 4, 5, 7, 9, 11], 0), (1, [7, 9, 11, 0, 2, 4, 6], 1), (2, [2, 4, 6, 7, 9, 11, 1], 2), (3, [9, 11, 1, 2, 4, 6, 8], 3), (4, [4, 6, 8, 9, 11, 1, 3], 4), (5, [11, 1, 3, 4, 6, 8, 10], 5), (6, [6, 8, 10, 11, 1, 3, 5], 6), (7, [1, 3, 5, 6, 8, 10, 0], 7), (8, [5, 7, 9, 10, 0, 2, 4], 1), (9, [10, 0, 2, 3, 5, 7, 9], 2), (10, [3, 5, 7, 8, 10, 0, 2], 3), (11, [8, 10, 0, 1, 3, 5, 7], 4), (12, [1, 3, 5, 6, 8, 10, 0], 5), (13, [6, 8, 10, 11, 1, 3, 5], 6), (14, [11, 1, 3, 4, 6, 8, 10], 7)]
-def keyTransposeOrder : List Int := [0, 7, 2, 10, 4, 8, 6, 1, 11, 3, 9, 5]
-def keyTransposeMapping : List (Int × Int) := [(12, 7), (13, 6), (14, 5)]
-/-- `MusicMapping.KeyKeyMapping`: mido key name ↦ key index -/
-def keyKeyMapping : List (String × Int) := [("C", 0), ("G", 1), ("D", 2), ("A", 3), ("E", 4), ("B", 5), ("F#", 6), ("C#", 7), ("F", 8), ("Bb", 9), ("Eb", 10), ("Ab", 11), ("Db", 12), ("Gb", 13), ("Cb", 14), ("Am", 0), ("Em", 1), ("Bm", 2), ("F#m", 3), ("C#m", 4), ("G#m", 5), ("D#m", 6), ("A#m", 7), ("Dm", 8), ("Gm", 9), ("Cm", 10), ("Fm", 11), ("Bbm", 12), ("Ebm", 13), ("Abm", 14)]
-
-/-- `TokenisationPrefixes`: (name, value) -/
-def tokenPrefixes : List (String × String) := [("PAD", "pad"), ("START", "sta"), ("STOP", "sto"), ("BAR", "bar"), ("REST", "rst"), ("NOTE", "nte"), ("TRACK", "trk"), ("PITCH", "pit"), ("VALUE", "val"), ("VELOCITY", "vel"), ("TIME_SIGNATURE", "tsg")]
-/-- `MultiTrackLargeVocabularyNotelikeTokeniser.sort_order` -/
-def tokenSortOrder : List String := ["trk", "val", "vel", "pit"]
-
-end SCoda.Gen
+/- GENERATION FAILED: AttributeError: type object 'MusicMapping' has no attribute 'key_transpose_mapping' -/
+#eval ("generation failed" : Nat)
